@@ -29,6 +29,17 @@ type FuncReport struct {
 	items       []item
 	Params      []ParamInfo
 	Results     []ParamInfo
+	// DynCalls: the dynamic interface calls governed by an interface contract, in symbolic
+	// execution order: receiver term and result terms (used by the replay to build stubs
+	// that answer with what the model says those calls returned)
+	DynCalls []DynCall
+}
+
+type DynCall struct {
+	Key     string
+	Recv    string
+	Results []string
+	Sorts   []string
 }
 
 type ParamInfo struct {
@@ -382,6 +393,7 @@ func (e *Engine) finish(r *run, rep *FuncReport) {
 	}
 	rep.LightPreamble = lp.String()
 	rep.items = r.items
+	rep.DynCalls = r.dynCalls
 	rep.QueryBytes = len(rep.Preamble) + len(bs)
 }
 
